@@ -161,3 +161,38 @@ func VerifC16_signature_slot() {
 	ndAssert(derr == nil && did && pos == int64(signer), "did-sign-reads-the-same-slot")
 	_ = time.Second
 }
+
+// VerifC17_attestation_slot: SetOracleAttestation for a snapshot that has n slots while the current bridge validator
+// set has m members: the signature lands only in the slot of the sender's position in the current set; a sender whose
+// position has no slot in this (older) snapshot writes nothing and causes no panic; every other slot is untouched.
+func VerifC17_attestation_slot() {
+	ctx, k := vBridgeKeeper(nil, nil, nil, nil)
+	m := 1 + ndLen("members", 2)
+	n := 1 + ndLen("slots", 2)
+	set := types.BridgeValidatorSet{}
+	for i := 0; i < m; i++ {
+		set.BridgeValidatorSet = append(set.BridgeValidatorSet, &types.BridgeValidator{EthereumAddress: []byte{byte(0x10 + i), 2, 3, 4, 5, 6, 7, 8, 9, 10, 11, 12, 13, 14, 15, 16, 17, 18, 19, 20}, Power: uint64(10 - i)})
+	}
+	must(k.BridgeValset.Set(ctx, set))
+	who := ndPick("sender", 3)
+	ndAssume(who < m)
+	op := "operator-of-the-sender"
+	must(k.OperatorToEVMAddressMap.Set(ctx, op, types.EVMAddress{EVMAddress: set.BridgeValidatorSet[who].EthereumAddress}))
+	snapshot := ndByteSlice("snapshot", 32)
+	must(k.SnapshotToAttestationsMap.Set(ctx, snapshot, *types.NewOracleAttestations(n)))
+	sig := ndByteSlice("signature", 65)
+	err := k.SetOracleAttestation(ctx, op, snapshot, sig)
+	ndReach("called")
+	got, gerr := k.SnapshotToAttestationsMap.Get(ctx, snapshot)
+	ndAssert(gerr == nil && len(got.Attestations) == n, "the-number-of-slots-does-not-change")
+	if gerr != nil || len(got.Attestations) != n {
+		return
+	}
+	for i := 0; i < n; i++ {
+		if i == who {
+			ndAssert(err == nil && vBytesEq(got.Attestations[i], sig), "signature-lands-in-the-sender's-slot")
+		} else {
+			ndAssert(len(got.Attestations[i]) == 0, "every-other-slot-is-untouched")
+		}
+	}
+}
